@@ -52,7 +52,7 @@ def _emit_rows(ctx, ck, fn, rows):
         return tv_and(tv_not(val.get("absorbed")), tv_or(val.get("held"), val.get("is_new")))
     all1 = all(not unk and want is not None and got == want for val, got, want, unk in rows)
     all2 = False
-    if not all1 and not getattr(ctx, "no_premises", False):
+    if not all1:
         if all(not unk and spec2(val) is not None and got == spec2(val) for val, got, want, unk in rows):
             from .. import premises
             bad = [k for k in premises.own_violations(ctx, "C08") if "/C08-R1/" in k or "/C08-R2/" in k or "/anchor/" in k or "/internal/" in k]
